@@ -106,6 +106,9 @@ def c04() -> int:
              "c04:idled:BEV:Idle", "c04:idled:ICE:Idle", "c04:idled:BEV:ChargeQueueing", "c04:ran_dry:BEV:DispatchStation|c04:ran_dry:BEV:DispatchBase|c04:ran_dry:BEV:Repositioning"]
     fsx(c, RES + ({"variant": "core", "gas": True, "mechs": ("thirsty", "tiny_thirsty", "ice"), "name": "W-res/energy"},),
         ("hivemc.bundles", "c04", {}), K=2 if quick else 3, H=7 if quick else 9, needs=needs)
+    # stations whose plug rates were lowered at run time
+    fsx(c, RES + ({"variant": "core", "gas": True, "mechs": ("thirsty", "tiny_thirsty", "ice"), "throttle": 0.24, "name": "W-res/energy/throttled"},),
+        ("hivemc.bundles", "c04", {}), K=2, H=6 if quick else 8, needs=["c04:charged:BEV:ChargingStation", "c04:charged:BEV:ChargingBase"])
     return c.finish()
 
 
